@@ -17,6 +17,7 @@ inductive St where
   | kin (k : KSt)
   | cut (r : RSt)
   | ecut
+  | kread (k : KRd)
   | job (j : JSt) (deployed : Bool)
   | misc
 
@@ -174,6 +175,32 @@ def stepMisc : List String → String
   | ["uidx", lo, hi, n] => toString (uidx (natOr lo) (natOr hi) (natOr n))
   | _ => "bad-op"
 
+/-- `shard@-` (from the start) or `shard@seq` (after that sequence number): (shard, position) -/
+def kAssignList (s : String) : List (Nat × Nat) :=
+  (splitOnC s ",").map fun p => match p.splitOn "@" with
+    | [a, "-"] => (natOr a, 0)
+    | [a, b] => (natOr a, natOr b + 1)
+    | _ => (0, 0)
+
+/-- the real Kinesis reader under the real runner, one gated `ReadEvents` per `kread`. `kread` / `kbarrier` print the
+verdict of `C16.cursor_matches_cut_kinesis` evaluated on the implementation (spec `ok`); the `…m` forms print what the
+model of the round-robin reader predicts (mechanism). -/
+def stepKread (k : KRd) : List String → KRd × String
+  | ["put", s, n] => ((Splits.kstep k (.put (natOr s) (natOr n))).1, "ok")
+  | ["assign", l] => ((Splits.kstep k (.assign (kAssignList l))).1, "ok")
+  | ["fail", n] => ((Splits.kstep k (.fail (natOr n))).1, "ok")
+  | ["kread"] => ((Splits.kstep k .read).1, "ok")
+  | ["kreadm"] =>
+    let (k', o) := Splits.kstep k .read
+    (k', match o with
+      | some (some n) => s!"n={n}"
+      | some none => "err"
+      | none => "bad")
+  | ["kbarrier", n] => ((Splits.kstep k (.barrier (natOr n))).1, "ok")
+  | ["kbarrierm", n] => let k' := (Splits.kstep k (.barrier (natOr n))).1; (k', showBarrier k'.r)
+  | ["end"] => (k, "ok")
+  | _ => (k, "bad-op")
+
 def showOptNat : Option Nat → String
   | none => "-"
   | some n => toString n
@@ -201,6 +228,7 @@ def step (st : St) (ws : List String) : St × String :=
   | .ecut => (.ecut, match ws with   -- free-running real reader: every op evaluates C16.cursor_matches_cut, spec `ok`
       | ["assign", _] | ["pause", _] | ["barrier", _] => "ok"
       | _ => "bad-op")
+  | .kread k => let (k', o) := stepKread k ws; (.kread k', o)
   | .job j d => let (j', o) := stepJob j d ws; (.job j' (d || ws == ["deploy"]), o)
   | .misc => (.misc, stepMisc ws)
 
@@ -212,6 +240,7 @@ def initSt (header : String) : St :=
   | "M" :: "C16" :: "cut" :: _ => .cut {}
   | "M" :: "C16" :: "ecut" :: _ => .ecut
   | "M" :: "C16" :: "job" :: _ => .job {} false
+  | ["M", "C16", "kread", _, _, _, _, limit] => .kread { limit := natOr limit }
   | _ => .misc
 
 def handle (lines : Array String) (i : Nat) (out : Array String) : Nat × Array String :=
